@@ -586,7 +586,6 @@ pub mod xa {
     impl TA for Imp {
         type Item = u64;
         fn push_all(&mut self, items: &[u64]) -> u64 {
-            seen(items.as_ptr());
             self.enter(9131, items.dig());
             for i in items { self.acc = self.acc.wrapping_mul(31).wrapping_add(*i); }
             self.acc
